@@ -145,9 +145,13 @@ fn grammar_doc(rng: &mut Rng) -> String {
     let prefix = if rng.chance(1, 12) { "g:" } else { "" };
     s.push_str(&format!("<{}graphml{}>", prefix, if rng.chance(1, 2) { " xmlns=\"http://graphml.graphdrawing.org/xmlns\"" } else { "" }));
     let wkey = rng.pick(&["weight", "d0", "w", "k1"]).to_string();
-    if rng.chance(1, 10) {
-        // the edge weight declared under two different ids
+    let two_ids = rng.chance(1, 6);
+    if two_ids {
+        // the edge weight declared under two different ids, both declarations well-formed (the last one governs)
         s.push_str(&format!("<{}key id={}{}{} for={}edge{} attr.name={}weight{}/>", prefix, q, "wA", q, q, q, q, q));
+        if rng.chance(2, 3) {
+            s.push_str(&format!("<{}key id={}{}{} for={}edge{} attr.name={}weight{}/>", prefix, q, wkey, q, q, q, q, q));
+        }
     }
     for _ in 0..rng.range(0, 2) {
         let mut k = format!("<{}key", prefix);
@@ -226,7 +230,13 @@ fn grammar_doc(rng: &mut Rng) -> String {
                 1 => e.push_str(&format!("></{}edge>", prefix)),
                 _ => {
                     e.push('>');
-                    let key = if rng.chance(5, 6) { wkey.as_str() } else { "weight" };
+                    let key = if two_ids && rng.chance(1, 3) {
+                        "wA"
+                    } else if rng.chance(5, 6) {
+                        wkey.as_str()
+                    } else {
+                        "weight"
+                    };
                     let long = long_weight_text(rng);
                     let txt: &str = if rng.chance(1, 12) {
                         &long
@@ -794,7 +804,7 @@ impl Prop for C19Prop {
         out
     }
     fn rule(&self) -> String {
-        format!("every case is one explicit document passed to read_graphml_string under one of 3 specs. Case indexes 0..{} enumerate EXHAUSTIVELY every single-point corruption (truncation at every byte, deletion / duplication of every byte, every single-bit flip, every byte replaced by each of <>&\"'=/ and space) of {} fixed base documents; the remaining cases sample documents written by the real writer, the fixed bases and grammar-generated near-GraphML (keys with/without for/id/attr.name, data in node/edge/graph, empty vs start-end elements, comments, CDATA, PIs, DOCTYPE, BOM, prefixes, single quotes, nested/second graphs, odd weight texts) with 0-4 faults (byte-level as above; structural: delete/duplicate/swap a tag, duplicate/delete an attribute, inject entities, replace a weight text - also by 20-140 bytes of mixed ASCII / multi-byte text -, splice two documents; in a quarter of the sampled cases a document on which the reader fails after taking state from it - a weight key, a graph kind, an open edge - is read on the same thread first), plus resource bombs (1e5-deep nesting, 10 MB attribute). Oracle: the call returns (no unwind, no worker death, within the step budget 2e6 + 200 per byte); if Ok(g): an independent quick-xml walk over the same bytes gives declared directedness, node ids and (source,target) list, which fed through the C01 model with the supplied specs must give exactly g's nodes and edges (weights when every weight <data> is a direct child of an <edge>). distinct_nontrivial = distinct documents for which the reader returned a graph that was compared", exhaustive_block(), BASES.len())
+        format!("every case is one explicit document passed to read_graphml_string under one of 3 specs. Case indexes 0..{} enumerate EXHAUSTIVELY every single-point corruption (truncation at every byte, deletion / duplication of every byte, every single-bit flip, every byte replaced by each of <>&\"'=/ and space) of {} fixed base documents; the remaining cases sample documents written by the real writer, the fixed bases and grammar-generated near-GraphML (keys with/without for/id/attr.name, data in node/edge/graph, empty vs start-end elements, comments, CDATA, PIs, DOCTYPE, BOM, prefixes, single quotes, nested/second graphs, odd weight texts) with 0-4 faults (byte-level as above; structural: delete/duplicate/swap a tag, duplicate/delete an attribute, inject entities, replace a weight text - also by 20-140 bytes of mixed ASCII / multi-byte text -, splice two documents; in a quarter of the sampled cases a document on which the reader fails after taking state from it - a weight key, a graph kind, an open edge - is read on the same thread first), plus resource bombs (1e5-deep nesting, 10 MB attribute). Oracle: the call returns (no unwind, no worker death, within the step budget 2e6 + 200 per byte); if Ok(g): an independent quick-xml walk over the same bytes gives declared directedness, node ids and (source,target) list, which fed through the C01 model with the supplied specs must give exactly g's nodes and edges (weights when every weight <data> is a direct child of an <edge>). distinct_nontrivial = distinct documents for which the reader returned a graph that was compared; a sixth of the grammar documents declare the edge weight under two ids", exhaustive_block(), BASES.len())
     }
     fn assumptions(&self) -> Vec<String> {
         vec![
